@@ -171,8 +171,11 @@ static void domRootInfo(DOMDocument* doc, std::string& attrs, std::string& kids)
             if (c->getNodeType() == DOMNode::ELEMENT_NODE) {
                 std::string t;
                 for (DOMNode* g = c->getFirstChild(); g; g = g->getNextSibling())
-                    if (g->getNodeType() == DOMNode::TEXT_NODE || g->getNodeType() == DOMNode::CDATA_SECTION_NODE)
+                    if (g->getNodeType() == DOMNode::TEXT_NODE || g->getNodeType() == DOMNode::CDATA_SECTION_NODE) {
+                        // ignorable white space (element-only content) is not character content for SAX either
+                        if (g->getNodeType() == DOMNode::TEXT_NODE && ((DOMText*)g)->isIgnorableWhitespace()) continue;
                         t += san(g->getNodeValue());
+                    }
                 kv.push_back(san(c->getLocalName()) + "=" + t);
             }
     }
